@@ -28,6 +28,73 @@ PROPS['C08'] = {
     'level_note': 'Trusted: Verus/Z3, Enumerate::next model, instantiation of the generic iterator parameters at &[u8]; BOM undecided; see evidence assumptions.',
 }
 
+PROPS['C04'] = {
+    'level': 'proof',
+    'units': ['C04/occ', 'C04/less'],
+    'kani': [],
+    'oracle': 'C04',
+    'decided': ['bwt(text, pos)[r] is the symbol cyclically preceding suffix pos[r]',
+                'less(bwt, alphabet)[c] == number of symbols < c (via prescan == exclusive prefix sums)',
+                'Occ::new builds checkpoint tables that are exact for every alphabet symbol and the sentinel; Occ::get(r, a) == #a in bwt[0..=r] for every sampling rate k >= 1 including the k > 64 look-ahead branch'],
+    'undecided': ['invert_bwt / bwtfind (LF-mapping theorem over a sorted suffix array; needs the suffix-order theory)'],
+    'trusted': ['bytecount::count stub == counting spec', 'Alphabet/BitSet stub (members, max_symbol, is_word, ascending duplicate-free collect)'],
+    'level_text': 'Verus proves bwt, less (with prescan) and Occ::new/Occ::get exact against counting specifications for all texts, alphabets and sampling rates; invert_bwt is not decided.',
+    'level_note': 'Trusted: Verus/Z3, stubs for bytecount::count and alphabets::Alphabet (bit_set), vstd Vec/slice specs; invert_bwt undecided.',
+}
+
+PROPS['C05'] = {
+    'level': 'other',
+    'units': ['C05/fmindex'],
+    'kani': [],
+    'oracle': 'C05',
+    'decided': ['FMIndexable::backward_search (the real default method) returns Complete/Partial/Absent exactly as defined by the LF recurrence l\' = less(a)+occ(l-1,a), r\' = less(a)+occ(r,a)-1 over the pattern read right to left; no arithmetic underflow given less(a) >= 1 for pattern symbols'],
+    'undecided': ['link between the LF recurrence and suffix-array occurrences (Ferragina-Manzini theorem: assumed, mathematics not code)',
+                  'Interval::occ and sampled suffix array resolution (iterator adapter chain)', 'FMIndex::{occ,less,bwt} delegation through Borrow'],
+    'trusted': ['trait obligations bounds/mono on implementors (stated as proof fns of the trait; discharged for FMIndex only by C04 contracts informally)'],
+    'level_text': 'Verus proves the real backward_search loop against the textbook LF recurrence (result cases, matched length, no underflow) for every implementor satisfying the stated counting laws; the step from the recurrence to occurrence sets is the FM-index theorem and is assumed.',
+    'level_note': 'Level other: proof of the search loop against the recurrence; occurrence semantics rests on the (assumed) LF-mapping theorem and on C04 for the tables.',
+}
+
+PROPS['C07'] = {
+    'level': 'proof',
+    'units': ['C07/avl'],
+    'kani': [],
+    'oracle': 'C07',
+    'decided': ['AVL interval tree: Node::insert preserves the search-tree/max/height/balance invariant and adds exactly one entry to the multiset of entries (rotations, repair, update_max, update_height under contract)',
+                'IntervalTreeIterator::next and IntervalTreeIteratorMut::next yield exactly the pending overlapping entries, each once, and terminate',
+                'intersect == half-open overlap'],
+    'undecided': ['IntervalTree::{insert,find,find_mut} wrappers (Into<Interval> plumbing)', 'array-backed interval tree (cgranges arithmetic, capturing closures)', 'AnnotMap (HashMap<String,_> delegation)'],
+    'trusted': ['generic N: lawful total order and faithful Clone are explicit preconditions', 'cmp::max, i64::abs, Option::map_or std specs (assume_specification)'],
+    'level_text': 'Verus proves the AVL tree invariant, multiset-of-entries postconditions and both query iterators for generic key and data types; the array-backed tree and AnnotMap are not decided.',
+    'level_note': 'Trusted: Verus/Z3; N: Ord lawful and Clone faithful (stated requires); std specs for max/abs; wrappers and the other two containers undecided.',
+}
+
+PROPS['C12'] = {
+    'level': 'proof',
+    'units': ['C12/fai'],
+    'kani': [],
+    'oracle': 'C12',
+    'decided': ['IndexedReader::{seek_to, read_line, read_into_buffer}: Ok => the buffer holds exactly stop-start bytes, byte j being the file byte at the offset of base start+j, for every fragmentation of fill_buf; stop > len or start > stop => Err; a truncated file gives Err (never short data); the read loop terminates'],
+    'undecided': ['fetch/fetch_by_rid/read/read_iter plumbing and the byte iterator (IndexedReaderIterator) are not yet under contract', 'Index::new (csv/serde), name lookup'],
+    'trusted': ['io::BufReader model: fill_buf returns ANY non-empty prefix of the remaining bytes (all fragmentations), consume, seek(Start)', 'io::Error::new opaque', 'cmp::min std spec'],
+    'level_text': 'Verus proves the real read path against a reader model that quantifies over every read fragmentation: returned bytes are exactly the requested bases, errors for bad intervals and truncated files, termination.',
+    'level_note': 'Trusted: the BufReader model (stub with the same paths), Verus/Z3; index parsing and by-name lookup not covered.',
+}
+
+PROPS['C17'] = {
+    'level': 'proof',
+    'units': ['C17/rank_select'],
+    'kani': [],
+    'oracle': 'C17',
+    'decided': ['superblocks(): entry q == number of t-bits before bit q*s, First exactly at the start of a run',
+                'rank_1(i) == Some(#ones in 0..=i) iff i < n', 'select_x: Some(p) => bit p matches and exactly j matches in 0..=p; None => j == 0 or j exceeds the number of matching real bits (padding never selected)',
+                'SuperblockRank::cmp is the order by (value, variant)'],
+    'undecided': ['RankSelect::new, rank_0, select_0/select_1 wrappers (closures passed to select_x) not yet under contract', 'WaveletMatrix'],
+    'trusted': ['bv::BitVec<u8> model (bits, get_block with zero padding, block_len, len, get_bit)', 'u8::count_ones/count_zeros specs', '[T]::binary_search spec', 'ceil_div8 stub for the float ceil (exact below 2^53)'],
+    'level_text': 'Verus proves the superblock tables, rank_1 and the whole of select_x (both bit values, padding-safe) against naive counting over a bit-vector model.',
+    'level_note': 'Trusted: bv::BitVec model, popcount and binary_search std specs, float ceil stub; wavelet matrix undecided.',
+}
+
 NOT_APPLICABLE = {
     'C10': 'Myers traceback lives in impl_myers! macro bodies and generic handler traits over iterator adapter chains (rev().chain(cycle())): outside Verus extraction (macros, adapters) and outside Kani\'s tractable loop-free fragment; no contract within reach decides any clause (DESIGN.md §4 C10).',
     'C11': 'FASTA/FASTQ parsing is String-based (read_line, trim_end, splitn(char::is_whitespace), write!): Verus has no str byte reasoning or specs for these, Kani explodes on String/UTF-8/fmt (DESIGN.md §4 C11).',
